@@ -771,10 +771,83 @@ func (x *Exec) indexAddr(fr *frame, instr *ssa.IndexAddr, xv, idx Value) Value {
 				return &SymPtr{base: base, idx: i, et: et}
 			}
 		}
+		if len(base) > iteIndexLimit && onlyLoaded(instr) {
+			return x.sparseAddr(base, i, et)
+		}
 		k := x.concretize(i, "index at "+fr.where(instr))
 		return &base[k]
 	}
 	panic("unreachable")
+}
+
+// onlyLoaded reports whether the address computed by instr is used for loads only.
+func onlyLoaded(instr *ssa.IndexAddr) bool {
+	refs := instr.Referrers()
+	if refs == nil {
+		return false
+	}
+	for _, r := range *refs {
+		u, ok := r.(*ssa.UnOp)
+		if !ok || u.Op != token.MUL {
+			if _, dbg := r.(*ssa.DebugRef); dbg {
+				continue
+			}
+			return false
+		}
+	}
+	return true
+}
+
+// sparseAddr resolves a read-only element address of a large array under a symbolic index:
+// the populated (non-zero) cells are the alternatives, all other cells are one class (their
+// content is the zero value, so which of them is read does not matter).
+func (x *Exec) sparseAddr(base []Value, idx *Term, et types.Type) Value {
+	var keys []int
+	for k := range base {
+		if !isZeroCell(base[k]) {
+			keys = append(keys, k)
+			if len(keys) > 256 {
+				return &base[x.concretize(idx, "index of densely populated large array")]
+			}
+		}
+	}
+	_, _, isInt := intInfo(et)
+	if isInt || isBoolT(et) {
+		// scalar cells: ite over the populated cells, default zero
+		sub := make([]Value, len(keys)+1)
+		var sel *Term = x.st.Const(idx.w, uint64(len(keys)))
+		for j := len(keys) - 1; j >= 0; j-- {
+			sub[j] = base[keys[j]]
+			sel = x.st.Ite(x.st.Eq(idx, x.st.Const(idx.w, uint64(keys[j]))), x.st.Const(idx.w, uint64(j)), sel)
+		}
+		sub[len(keys)] = zero(et)
+		return &SymPtr{base: sub, idx: sel, et: et}
+	}
+	for _, k := range keys {
+		if x.branch(x.st.Eq(idx, x.st.Const(idx.w, uint64(k)))) {
+			return &base[k]
+		}
+	}
+	cell := zero(et)
+	return &cell
+}
+
+func isZeroCell(v Value) bool {
+	switch c := v.(type) {
+	case uint64:
+		return c == 0
+	case bool:
+		return !c
+	case Iface:
+		return c.t == nil
+	case *Value:
+		return c == nil
+	case string:
+		return c == ""
+	case nil:
+		return true
+	}
+	return false
 }
 
 func (x *Exec) index(fr *frame, instr *ssa.Index, xv, idx Value) Value {
